@@ -635,6 +635,23 @@ def run_shard(shard, tier, seed):
             for k in range(1, depth):
                 below = [n for n in ns if n.count(".") > k]
                 unknown_name_cases(ns, I, seed, res, level_limit=k, extra_unknown=below)
+            # level_limit = 0: only the root module exists, every other name is unknown
+            ev0 = build(ns, I, seed, 0)
+            if len(ns) >= 3:
+                a, b = ns[1], ns[2]
+                specs0 = [dict(verb=verb, imp=imp, exc=exc, sk=kind, subj=(a,), ok=kind, obj=(b,)) for verb, imp, exc in SHAPES for kind in ("named", "sub")]
+                specs0 += [dict(verb="should_not", imp=imp, exc=False, sk="named", subj=(a,), ok=None, obj=None, anything=True) for imp in (True, False)]
+                for spec in specs0:
+                    got = run_rule(mkrule(spec, seed), ev0)
+                    res.transitions += 1
+                    res.evaluations += 1
+                    res.traces += 1
+                    res.nontrivial += 1
+                    res.stats[f"unknown-name:{got[0]}"] += 1
+                    if got[0] != "ERR":
+                        res.violation("unknown-module-name-gives-verdict",
+                                      {"part": "unknown-name", "modules": ns, "imports": I, "rule": spec, "level_limit": 0, "seed": seed},
+                                      "a lookup error", list(got))
     return res
 
 
